@@ -45,6 +45,7 @@ OfAxes(h, v) == [x |-> h.p, cx |-> h.d, fh |-> h.f, y |-> v.p, cy |-> v.d, fv |-
                  bx |-> AxBegin(h), ex |-> AxEnd(h), by |-> AxBegin(v), ey |-> AxEnd(v)]
 CxnImplStep(s, a) ==
   CASE a.op = "create" -> OfAxes(AxCreate(a.bx, a.ex), AxCreate(a.by, a.ey))
+    [] a.op = "load"   -> OfAxes([p |-> a.x, d |-> a.cx, f |-> a.fh], [p |-> a.y, d |-> a.cy, f |-> a.fv])   \* a frame as a document holds it
     [] a.op = "bx" -> OfAxes(AxSetBegin(Hax(s), a.v), Vax(s))
     [] a.op = "ex" -> OfAxes(AxSetEnd(Hax(s), a.v), Vax(s))
     [] a.op = "by" -> OfAxes(Hax(s), AxSetBegin(Vax(s), a.v))
